@@ -136,6 +136,7 @@ class Enumerator:
         self.handler_filter = handler_filter
         self.assume_inner = assume_inner
         self.refine_raises = refine_raises
+        self.trust_summaries = False
         self.opaque = opaque        # opaque(stmt, fi) -> bool  (slicing of compound statements)
         self.stop = stop            # stop(node, fi) -> bool    (cut the path before this node)
         self._raise_cache = {}
@@ -157,6 +158,8 @@ class Enumerator:
         if callee.qualname in frame.stack or frame.depth >= self.max_depth:
             return res.raises
         args = bind_args(callee, cexpr, getattr(res, 'self_expr', None))
+        if getattr(res, 'args_override', None) is not None:
+            args = dict(res.args_override)
         if res.kind == 'class':
             args['self'] = ast.Name(OBJ, ast.Load())
         key = (callee.qualname, cctx.qualname if cctx else None,
@@ -317,6 +320,8 @@ class _Frame:
                 return
             callee, cctx = target
             args = bind_args(callee, cexpr, getattr(res, 'self_expr', None))
+            if getattr(res, 'args_override', None) is not None:
+                args = dict(res.args_override)
             if res.kind == 'class':
                 args['self'] = ast.Name(OBJ, ast.Load())
             sub = self.en.run(callee, ctx=cctx, args=args, depth=self.depth + 1,
@@ -355,6 +360,10 @@ class _Frame:
         if kind in ('join', 'iter', 'test') and node.stmt is not None and \
                 isinstance(node.stmt, (ast.While, ast.For, ast.AsyncFor)):
             key = node.id
+            if (kind == 'iter' or self._is_loop_head(node)) and visits:
+                inner = self.inner_loops(node.stmt)
+                if inner and any(k in inner for k in visits):
+                    visits = {k: c for k, c in visits.items() if k not in inner}
             n = visits.get(key, 0)
             if kind == 'join' and self._is_loop_head(node):
                 if n > self.en.loop_bound:
@@ -469,7 +478,7 @@ class _Frame:
                         if n > self.en.loop_bound or known_empty:
                             continue
                         env2 = dict(env)
-                        elem = ast.Call(ast.Name(ELEM, ast.Load()), [it], [])
+                        elem = ast.Call(ast.Name(ELEM, ast.Load()), [it, ast.Constant(n - 1)], [])
                         self.bind_target(st.target, elem, env2, None, node)
                         ev2 = list(events2)
                         ev2.append(Event('iter', expr=it, pol=True, node=node, func=self.fi,
@@ -523,6 +532,19 @@ class _Frame:
     def _is_loop_head(self, node):
         return node.origin == 'loophead'
 
+    def inner_loops(self, stmt):
+        """ids of the loop-header nodes of loops nested strictly inside stmt."""
+        cache = self.cfg.__dict__.setdefault('_inner', {})
+        if id(stmt) not in cache:
+            inner_stmts = set()
+            for ch in ast.walk(stmt):
+                if ch is not stmt and isinstance(ch, (ast.While, ast.For, ast.AsyncFor)):
+                    inner_stmts.add(id(ch))
+            cache[id(stmt)] = {n.id for n in self.cfg.nodes
+                               if n.stmt is not None and id(n.stmt) in inner_stmts and
+                               (n.kind == 'iter' or n.origin == 'loophead')}
+        return cache[id(stmt)]
+
     def follow_normal(self, node, env, events, visits, pending, hcls):
         for (succ, lab) in node.succ:
             if lab in ('exc', 'raise'):
@@ -547,7 +569,7 @@ class _Frame:
             t = self.route_class(node, env, ev2, visits, cls, hcls, label='exc')
             if t is not None:
                 taken.add(t)
-        if self.en.follow_handlers:
+        if self.en.follow_handlers and self.may_raise_implicit(node, events):
             for (succ, lab) in node.succ:
                 if lab != 'exc' or succ.kind != 'handler' or succ.id in taken:
                     continue
@@ -558,6 +580,43 @@ class _Frame:
                 ev2.append(Event('exc', node=node, func=self.fi, depth=self.depth, cls=None,
                                  ctx=self.ctx))
                 self.walk(succ, env, ev2, visits, None, None)
+
+    NO_RAISE_PRIMS = ('queue.task_done', 'queue.put', 'queue.put_nowait', 'logger.',
+                      'builtin:isinstance', 'builtin:len', 'builtin:str', 'builtin:hasattr',
+                      'builtin:callable', 'list.append', 'str.', 'extmod:sys.exc_info',
+                      'extmod:time.time', 'set.')
+
+    def may_raise_implicit(self, node, events):
+        """Can an exception of unknown class plausibly originate at this node?  Only nodes
+        with a call that is not on the cannot-raise list, or with a subscript / await."""
+        a = node.ast
+        if node.kind == 'with':
+            a = a.context_expr
+        elif node.kind == 'iter':
+            a = a.iter
+        if a is None:
+            return False
+        own = [e for e in reversed(events) if e.kind == 'call' and e.node is node
+               and e.depth == self.depth]
+        for n in ast.walk(a):
+            if isinstance(n, (ast.FunctionDef, ast.AsyncFunctionDef, ast.Lambda)):
+                continue
+            if isinstance(n, ast.Subscript) and isinstance(n.ctx, ast.Load):
+                return True
+            if isinstance(n, ast.Call):
+                ev = next((e for e in own if e.raw is n), None)
+                r = ev.callee if ev is not None else None
+                if r is not None and r.kind == 'prim':
+                    pr = str(r.prim)
+                    if any(pr == x or (x.endswith('.') and pr.startswith(x)) or
+                           (pr.startswith('?.') and pr[2:] in ('append', 'task_done'))
+                           for x in self.NO_RAISE_PRIMS):
+                        continue
+                if r is not None and r.kind in ('repo', 'class') and not r.raises and \
+                        self.en.trust_summaries:
+                    continue
+                return True
+        return False
 
     def route_raised(self, node, env, events, visits, raised, hcls):
         """An inlined callee raised (raised = [('!', cls)]) or was cut."""
